@@ -38,6 +38,11 @@ def matOf {α : Type} [Zero α] (n : Nat) (l : List α) : Fin n → Fin n → α
 def matFlat {α : Type} (n : Nat) (M : Fin n → Fin n → α) : List α :=
   (List.finRange n).flatMap fun r => (List.finRange n).map fun c => M r c
 
+/-- division of Gaussian rationals, `a/b = a·conj b / |b|²` (the model's `interpBeta` divides `beta / dm_norm`) -/
+instance : Div QI := ⟨fun a b =>
+  let n := b.re * b.re + b.im * b.im
+  ⟨(a.re * b.re + a.im * b.im) / n, (a.im * b.re - a.re * b.im) / n⟩⟩
+
 def qiOfNatInv (n : Nat) : QI := ⟨(1 : Rat) / (n : Int), 0⟩
 def qiHalf : QI := ⟨(1 : Rat) / 2, 0⟩
 
@@ -83,8 +88,8 @@ def handle (args : List String) : String :=
       let some norm := ratBits? norm | return "bad-op"
       let some l := parseGIntList? l | return "bad-op"
       if n = 0 || l.length ≠ n * n || norm = 0 then return "bad-op"
-      -- `alpha = beta / dm_norm` (exact here; the implementation rounds once)
-      let M := interp (qiOfNatInv n) (⟨beta / norm, 0⟩ : QI) (matOf n (l.map QI.ofGInt))
+      -- the proved constant `interpBeta` (`alpha = beta / dm_norm`, exact here; the implementation rounds once)
+      let M := interpBeta (qiOfNatInv n) (⟨beta, 0⟩ : QI) (⟨norm, 0⟩ : QI) (matOf n (l.map QI.ofGInt))
       return ";".intercalate ((matFlat n M).map qiStr)
   | ["charow", dA, dB, a, b] => Id.run do
       let some dA := dA.toNat? | return "bad-op"
